@@ -199,6 +199,7 @@ pub fn alphabet(thorough: bool) -> Vec<Call> {
         Call::W(T::U(CHILD, 7), Opt::Default),
         Call::W(T::M(PARENT, Master::Full(vec![T::U(CHILD, 1)])), Opt::Default),
         Call::W(T::M(PARENT, Master::Full(vec![T::U(CHILD, 1), T::U(UINT, 2)])), Opt::Default),
+        Call::W(T::M(PARENT, Master::Full(vec![T::U(CHILD, 1)])), Opt::Width(2)),
         Call::W(T::Raw(0x4321, vec![1, 2]), Opt::Default), Call::W(T::Raw(0x11, vec![1]), Opt::Default),
         Call::W(T::U(UINT, 5), Opt::Unknown),
         Call::W(T::B(VOID, vec![]), Opt::Default),
